@@ -1,19 +1,21 @@
 // C15/C16 spec functions (hand-written from the property statements)
-/// C15 request selection
+/// C15 request selection (genuine requests only: right kind, unspent outputs, canonical pool name, non-zero amounts)
+pub open spec fn pool_live(p: PoolState) -> bool { p.lefts > 0 && p.rights > 0 }
 pub open spec fn is_swap_req<C: ContentAddrStore>(s: UnsealedState<C>, tx: Transaction) -> bool {
     &&& tx.kind == TxKind::Swap && tx.outputs@.len() > 0 && s.coins@.coins.contains_key(cid(tx, 0))
-    &&& spec_pk_from_bytes(tx.data@) is Some && s.pools@.contains_key(spec_pk_from_bytes(tx.data@)->Some_0)
-    &&& (tx.outputs@[0].denom == spec_pk_from_bytes(tx.data@)->Some_0.left || tx.outputs@[0].denom == spec_pk_from_bytes(tx.data@)->Some_0.right)
+    &&& spec_req_key(tx.data@) is Some && s.pools@.contains_key(spec_req_key(tx.data@)->Some_0) && pool_live(s.pools@[spec_req_key(tx.data@)->Some_0])
+    &&& (tx.outputs@[0].denom == spec_req_key(tx.data@)->Some_0.left || tx.outputs@[0].denom == spec_req_key(tx.data@)->Some_0.right)
+    &&& tx.outputs@[0].value.0 > 0
 }
 pub open spec fn is_deposit_req<C: ContentAddrStore>(s: UnsealedState<C>, tx: Transaction) -> bool {
     &&& tx.kind == TxKind::LiqDeposit && tx.outputs@.len() >= 2 && s.coins@.coins.contains_key(cid(tx, 0)) && s.coins@.coins.contains_key(cid(tx, 1))
-    &&& spec_pk_from_bytes(tx.data@) is Some
-    &&& tx.outputs@[0].denom == spec_pk_from_bytes(tx.data@)->Some_0.left && tx.outputs@[1].denom == spec_pk_from_bytes(tx.data@)->Some_0.right
+    &&& spec_req_key(tx.data@) is Some && tx.outputs@[0].value.0 > 0 && tx.outputs@[1].value.0 > 0
+    &&& tx.outputs@[0].denom == spec_req_key(tx.data@)->Some_0.left && tx.outputs@[1].denom == spec_req_key(tx.data@)->Some_0.right
 }
 pub open spec fn is_withdraw_req<C: ContentAddrStore>(s: UnsealedState<C>, tx: Transaction) -> bool {
     &&& tx.kind == TxKind::LiqWithdraw && tx.outputs@.len() == 1 && s.coins@.coins.contains_key(cid(tx, 0))
-    &&& spec_pk_from_bytes(tx.data@) is Some && s.pools@.contains_key(spec_pk_from_bytes(tx.data@)->Some_0)
-    &&& tx.outputs@[0].denom == spec_liq_denom(spec_pk_from_bytes(tx.data@)->Some_0)
+    &&& spec_req_key(tx.data@) is Some && s.pools@.contains_key(spec_req_key(tx.data@)->Some_0) && tx.outputs@[0].value.0 > 0
+    &&& tx.outputs@[0].denom == spec_liq_denom(spec_req_key(tx.data@)->Some_0)
 }
 /// the selected requests are exactly the block's transactions satisfying the predicate (in the set's iteration order)
 pub open spec fn selected(txs: Map<TxHash, Transaction>, res: Seq<Transaction>, p: spec_fn(Transaction) -> bool) -> bool {
